@@ -128,6 +128,8 @@ def _(c):
     c.raises('RuntimeError', when='self.name is None and message.obj.type is not None', exact=False)
     c.ensures('inv_conn(conn)', 'invariant_kept')
     c.ensures('unres or self.obj is old(self.obj)', 'resolved_mentions_are_kept')
+    c.requires('probe() is None or (allocated(probe()) and foreign(probe(), conn))', 'probe_list_is_foreign')
+    c.ensures('probe() is None or foreign(probe(), conn)', 'foreign_lists_stay_foreign')
     c.ensures('not creates or (oid in conn.db and self.obj is conn.db[oid][len(conn.db[oid]) - 1])', 'a_typed_new_id_names_the_latest_incarnation')
     c.ensures('not creates or len(conn.db[oid]) == (old(len(conn.db[oid])) + 1 if old(oid in conn.db) else 1)', 'a_typed_new_id_creates_exactly_one_incarnation')
     c.ensures('not creates or (self.obj.type == old(self.obj.type) and self.obj.create_time == message.timestamp and self.obj.alive and fresh(self.obj))',
@@ -152,7 +154,7 @@ def _(c):
     c.types(conn=CI, message=MSG)
     c.requires('self.values is None or all(isinstance(self.values[k], Int) for k in range(0, len(self.values)))', 'array_elements_are_integers')
     c.raises('RuntimeError', when='message.obj.type is not None', exact=False)
-    c.modifies('field(core.wl.arg.Arg.Base.name)', 'field(core.wl.arg.Arg.Int.labels)', 'new')
+    c.modifies('self.name', 'when(self.values is not None, field(core.wl.arg.Arg.Base.name))', 'when(self.values is not None, field(core.wl.arg.Arg.Int.labels))', 'new')
     lp = c.loop(0)
     lp.modifies('field(core.wl.arg.Arg.Base.name)', 'field(core.wl.arg.Arg.Int.labels)', 'new')
     lp.invariant('all(isinstance(self.values[k], Int) for k in range(0, len(self.values)))', 'ints')
@@ -165,7 +167,7 @@ def _gen_message_resolve(rnd):
     return (m, conn)
 
 
-_ARGF = ['field(core.wl.arg.Arg.Base.name)', 'field(core.wl.arg.Arg.Int.labels)', 'field(core.wl.arg.Arg.Null.type)', 'field(core.wl.arg.Arg.Object.obj)']
+_ARGF = ['each(self.args, core.wl.arg.Arg.Base.name)', 'each(self.args, core.wl.arg.Arg.Int.labels)', 'each(self.args, core.wl.arg.Arg.Null.type)', 'each(self.args, core.wl.arg.Arg.Object.obj)']
 
 
 @contract('core.wl.message.Message.resolve')
@@ -187,6 +189,8 @@ def _(c):
     c.ensures('all(all(dictview(conn.db)[i][k] is old(dictview(conn.db))[i][k] for k in range(0, len(old(dictview(conn.db))[i]))) for i in old(dictview(conn.db)))',
               'existing_incarnations_keep_their_position')
     c.ensures('tgt_unres or self.obj is old(self.obj)', 'resolved_target_kept')
+    c.requires('probe() is None or (allocated(probe()) and foreign(probe(), conn))', 'probe_list_is_foreign')
+    c.ensures('probe() is None or foreign(probe(), conn)', 'foreign_lists_stay_foreign')
     c.ensures('deletes or self.destroyed_obj is old(self.destroyed_obj)', 'only_delete_id_on_the_display_destroys')
     c.let('did', 'cast(Int, self.args[0]).value if (len(self.args) > 0 and isinstance(self.args[0], Int)) else 0')
     c.ensures('not deletes or (did in old(dictview(conn.db)) and self.destroyed_obj is old(dictview(conn.db))[did][len(old(dictview(conn.db))[did]) - 1])',
@@ -195,11 +199,12 @@ def _(c):
               'destroyed_at_the_time_of_the_delete_id_message')
     c.modifies('self.obj', 'self.destroyed_obj', 'new', 'dict(conn.db)', 'lists_of(conn.db)',
                'owned(core.wl.object.ObjectBase.alive, conn)', 'owned(core.wl.object.ObjectBase.destroy_time, conn)',
-               'when(isinstance(self.obj, UnresolvedObject) or True, field(core.wl.object.ObjectBase.type))', *_ARGF)
+               'when(len(self.args) == 4 and isinstance(self.args[3], Object), cast(Object, self.args[3]).obj.type)', *_ARGF)
     lp = c.loop(0)
     lp.modifies('new', 'dict(conn.db)', 'lists_of(conn.db)', 'owned(core.wl.object.ObjectBase.alive, conn)',
                 'owned(core.wl.object.ObjectBase.destroy_time, conn)', *_ARGF)
     lp.invariant('inv_conn(conn)', 'inv')
+    lp.invariant('probe() is None or (allocated(probe()) and foreign(probe(), conn))', 'foreign')
     lp.invariant('all(i in dictview(conn.db) for i in old(dictview(conn.db)))', 'ids_kept')
     lp.invariant('all(len(dictview(conn.db)[i]) >= len(old(dictview(conn.db))[i]) for i in old(dictview(conn.db)))', 'grow')
     lp.invariant('all(all(dictview(conn.db)[i][k] is old(dictview(conn.db))[i][k] for k in range(0, len(old(dictview(conn.db))[i]))) for i in old(dictview(conn.db)))', 'positions')
